@@ -610,7 +610,7 @@ pub fn gen(tier: Tier, rng: &mut Rng64, out: &mut Out) {
         }).collect();
         run("C19.run", &[n.to_string(), pool.join("/"), progs.join("/")], out);
     }
-    let rounds = if thorough { 30000 } else { 1000 };
+    let rounds = if thorough { 24000 } else { 1000 };
     for round in 0..rounds {
         if out.full() { break; }
         let n = 1 + rng.below(8) as usize;
